@@ -130,11 +130,11 @@ def _worker(args):
     for k, pos, name, s in sv[:50]:
         out["violations"].append({"kind": "state:" + name, "detail": "clause %s false at %s" % (name, pos),
                                   "replay": replay_of(k, state=s, position=pos)})
-    if prop in ("C01", "C04"):
-        # hypotheses of the C01/C04 theorems on the compiled initial state of every episode: fresh (C04: fresh2); for the
+    if prop in ("C01", "C04", "C03"):
+        # hypotheses of the C01/C04 (and C03_claims_*) theorems on the compiled initial state of every episode: fresh (C04: fresh2); for the
         # unconditional (flex) theorems also fresh2, the store clauses of wfs_b and nodep - reported when the instance
         # has unordered machine post-buffers (the class those theorems speak about)
-        clause = "fresh" if prop == "C01" else "fresh2"
+        init_clauses = {"C01": ["fresh"], "C04": ["fresh2"], "C03": ["claims", "nodep"]}[prop]
         flex_hyps = ["placement", "loc", "capacity", "flags", "fresh2", "nodep"]
         nfresh = nflex = 0
         for e in eps:
@@ -143,15 +143,16 @@ def _worker(args):
                 drv.set_codec(r0.codec)
                 bits = drv.ask("M " + r0.pre).strip("()").split()
                 nfresh += 1
-                if bits[trace.CLAUSES.index(clause)] != "1":
-                    out["violations"].append({"kind": "state:" + clause, "detail": "the initial state of the episode is not "
-                                              "%s (hypothesis of the %s theorems)" % (clause, prop),
-                                              "replay": replay_of(e.first, state=r0.pre)})
+                for clause in init_clauses:
+                    if bits[trace.CLAUSES.index(clause)] != "1":
+                        out["violations"].append({"kind": "state:" + clause, "detail": "the initial state of the episode does "
+                                                  "not satisfy %s (hypothesis of the %s theorems)" % (clause, prop),
+                                                  "replay": replay_of(e.first, state=r0.pre)})
                 try:
                     flex = all("FLEX" in str(m.postbuffer.type).upper() for m in r0.codec.instance.machines)
                 except Exception:  # noqa
                     flex = False
-                if flex:
+                if flex and prop != "C03":
                     nflex += 1
                     for hname in flex_hyps:
                         if bits[trace.CLAUSES.index(hname)] != "1":
@@ -390,7 +391,7 @@ def sm_check(ctx, n_quick=160, n_thorough=6000, custom_p=0.15, extra=None, worke
         "episode_end_histogram": dict(ends), "input_distribution": dict(feats),
         "transition_kinds_seen": dict(kinds),
     })
-    if prop in ("C01", "C04"):
+    if prop in ("C01", "C04", "C03"):
         ctx.coverage["initial_states_checked_against_theorem_hypotheses"] = tot["fresh_initial_states"]
         ctx.coverage["episodes_on_instances_with_unordered_post_buffers"] = tot["flex_episodes"]
     ctx.search_note = ("monitors (extracted theorem predicates) evaluated on %d implementation states and %d micro-events of "
